@@ -9,6 +9,7 @@ pub mod c12;
 pub mod c13;
 pub mod c15;
 pub mod c16;
+pub mod c17;
 pub mod c19;
 pub mod jobs;
 
@@ -32,6 +33,7 @@ pub fn all() -> Vec<CheckDef> {
     v.push(c13::def());
     v.push(c15::def());
     v.push(c16::def());
+    v.push(c17::def());
     v.push(c19::def());
     v
 }
